@@ -160,6 +160,7 @@ show("twice", lambda: (cee.Cls.twice(21), a.twice(x=2)))
 show("rename", lambda: (b.rename("bee"), a.rename(name="")))
 show("names", lambda: (a.name(), b.name()))
 show("find", lambda: (cee.findCls(0).id(), cee.findCls(id=3).id()))
+show("ref", lambda: (cee.refCls(0).rename("zed"), cee.findCls(0).name(), cee.refCls(2).name(), cee.refCls(3).id()))
 r = cee.newCls(7)
 show("new", lambda: (r.id(), r.add(1), type(r) is cee.Cls))
 show("color", lambda: (cee.nextColor(cee.RED), cee.nextColor(cee.GREEN), cee.nextColor(c=cee.BLUE)))
@@ -191,9 +192,9 @@ def python_scenario(args):
 
     y = _y.safe_load(c02.SCEN_YAML)
     y["options"] = dict({"wrap_fortran": False, "wrap_c": False, "wrap_python": True, "wrap_lua": False, "PY_array_arg": "list"}, **more)
-    # left out: by-value class result, class-pointer free function, nested namespace (they do not build or crash: C05 / known findings),
+    # left out: by-value class result, const class reference result, class-pointer free function, nested namespace (they do not build or crash: C05 / known findings),
     # the const / non-const pair (no documented rule says which one Python reaches)
-    y["declarations"] = [d for d in y["declarations"] if not d["decl"].startswith(("Cls valCls", "void takes"))]
+    y["declarations"] = [d for d in y["declarations"] if not d["decl"].startswith(("Cls valCls", "void takes", "const Cls &crefCls"))]
     for d in y["declarations"]:
         if d["decl"] == "namespace ns":
             d["declarations"] = [x for x in d["declarations"] if not x["decl"].startswith("namespace")]
@@ -224,7 +225,7 @@ def python_scenario(args):
     got_recv = [l for l in tr.split("\n") if l.startswith("RECV ")]
     D = A.NATIVE["double"]
     exp_obs = ["OBS ids -> (5, 9)", "OBS add -> (8, 13, 4)", "OBS twice -> (42, 4)", "OBS rename -> (None, None)", "OBS names -> ('', 'bee')",
-               "OBS find -> (100, 101)", "OBS new -> (7, 8, True)", "OBS color -> (3, 4, 0)", "OBS over -> (None, None)", "OBS dflt -> (32, 34, 35, 62)",
+               "OBS find -> (100, 101)", "OBS ref -> (None, 'zed', 'zed', 101)", "OBS new -> (7, 8, True)", "OBS color -> (3, 4, 0)", "OBS over -> (None, None)", "OBS dflt -> (32, 34, 35, 62)",
                "OBS tmpl -> (42, 2.5)", "OBS weigh -> (7.5, 1.5)", "OBS order -> (None, None)", "OBS ns -> 2", "OBS dims -> (%r, %r, %r, %r, %r)" % (list(range(100, 109)), list(range(100, 108)), list(range(200, 208)), list(range(200, 209)), [100, 101]),
                "OBS total -> (6, 3.5, 6.5, 0.5, 0)", "OBS scale -> ((15, 8), (10, 7), (12, 7), 6)", "OBS tally -> (106, 16, 104, 10)", "OBS over-kw -> (None, None, 3)", "OBS bad-add raises TypeError/ValueError",
                "OBS bad-ctor raises TypeError/ValueError", "OBS bad-over raises TypeError/ValueError", "OBS bad-extra raises TypeError/ValueError",
@@ -232,6 +233,7 @@ def python_scenario(args):
     exp_recv = ["RECV Cls::Cls id=5", "RECV Cls::Cls id=9", "RECV Cls::add this=5 x=3", "RECV Cls::add this=9 x=4", "RECV Cls::add this=5 x=-1",
                 "RECV Cls::twice x=21", "RECV Cls::twice x=2", "RECV Cls::rename this=9 name=3:[bee]", "RECV Cls::rename this=5 name=0:[]",
                 "RECV Cls::Cls id=100", "RECV Cls::Cls id=101", "RECV findCls id=0", "RECV findCls id=3",
+                "RECV refCls id=0", "RECV Cls::rename this=100 name=3:[zed]", "RECV findCls id=0", "RECV refCls id=2", "RECV refCls id=3",
                 "RECV newCls id=7", "RECV Cls::Cls id=7", "RECV Cls::add this=7 x=1",
                 "RECV nextColor c=0", "RECV nextColor c=3", "RECV nextColor c=4",
                 "RECV over(int) a=4", "RECV over(double) a=" + A.rnd(D, -1.5),
